@@ -104,6 +104,8 @@ pub trait SqrtFld: Fld {
     fn lex_larger_than_neg(&self) -> bool;
     /// some cube root, if one exists
     fn cube_root(&self) -> Option<Self>;
+    /// the element with the given coordinates over Fq (Fq itself ignores the second one)
+    fn from_fq_pair(c0: &Fq, c1: &Fq) -> Self;
 }
 
 /// cube root in a cyclic group of order n = 9 m (3 not dividing m) given as the non-zero elements of F:
@@ -213,6 +215,9 @@ impl Fld for Fq {
 }
 
 impl SqrtFld for Fq {
+    fn from_fq_pair(c0: &Fq, _c1: &Fq) -> Self {
+        c0.clone()
+    }
     fn cube_root(&self) -> Option<Self> {
         cbrt_by_sylow(self, &(q() - Z::one()), &|i| Fq::from_u64(2 + i))
     }
@@ -325,6 +330,9 @@ impl Fld for Fq2 {
 }
 
 impl SqrtFld for Fq2 {
+    fn from_fq_pair(c0: &Fq, c1: &Fq) -> Self {
+        Fq2::new(c0.clone(), c1.clone())
+    }
     fn cube_root(&self) -> Option<Self> {
         self.cbrt()
     }
